@@ -201,6 +201,7 @@ cLUMemInit(fact_t fact, void *work, int_t lwork, int m, int n, int_t annz,
     singlecomplex   *ucol;
     int_t    *usub, *xusub;
     int_t    nzlmax, nzumax, nzlumax;
+    int_t    saved_top1 = 0, saved_used = 0;
     
     iword     = sizeof(int);
     dword     = sizeof(singlecomplex);
@@ -242,6 +243,15 @@ cLUMemInit(fact_t fact, void *work, int_t lwork, int m, int n, int_t annz,
 	    xlsub  = cuser_malloc((n+1) * iword, HEAD, Glu);
 	    xlusup = cuser_malloc((n+1) * iword, HEAD, Glu);
 	    xusub  = cuser_malloc((n+1) * iword, HEAD, Glu);
+	    if ( !xsup || !supno || !xlsub || !xlusup || !xusub ) {
+		/* work[] cannot even hold the pointer arrays */
+		SUPERLU_FREE(Glu->expanders);
+		Glu->expanders = NULL;
+		return (cmemory_usage(nzlmax, nzumax, nzlumax, n) + n);
+	    }
+	    /* Stack state in front of the four expandable arrays. */
+	    saved_top1 = Glu->stack.top1;
+	    saved_used = Glu->stack.used;
 	}
 
 	lusup = (singlecomplex *) cexpand( &nzlumax, LUSUP, 0, 0, Glu );
@@ -256,8 +266,10 @@ cLUMemInit(fact_t fact, void *work, int_t lwork, int m, int n, int_t annz,
 		SUPERLU_FREE(lsub); 
 		SUPERLU_FREE(usub);
 	    } else {
-		cuser_free((nzlumax+nzumax)*dword+(nzlmax+nzumax)*iword,
-                            HEAD, Glu);
+		/* Give back exactly what the four attempts took: some of them
+		   may have failed, and alignment padding is not in the sizes. */
+		Glu->stack.top1 = saved_top1;
+		Glu->stack.used = saved_used;
 	    }
 	    nzlumax /= 2;
 	    nzumax /= 2;
